@@ -72,8 +72,16 @@ def _with_value(p, value):
     return q
 
 
-def _select(paths, asg):
-    res = ai.enum_run(paths, asg)
+def _select(paths, asg, idx=None, fi=None):
+    if idx is not None:
+        res = []
+        for p in paths:
+            vals = [ai.enum_eval(ai.specialise(idx, fi, g, asg), asg) for g in p.conds]
+            if any(v is not UNK and not v for v in vals):
+                continue
+            res.append((p, not any(v is UNK for v in vals)))
+    else:
+        res = ai.enum_run(paths, asg)
     if len(res) != 1 or not res[0][1]:
         raise AnalysisError('option values %s select %d paths' % (asg, len(res)))
     return res[0][0]
@@ -88,7 +96,7 @@ def d3_matrices(ctx, idx):
         fi, paths = _paths(idx, SM + '.apply_symmetry')
         base = _array_param(fi)
         for s in SYMMETRIES:
-            p = _select(paths, {'symmetry': s, 'traceless': False})
+            p = _select(paths, {'symmetry': s, 'traceless': False}, idx, fi)
             construct = 'SquareMatrices.apply_symmetry [symmetry=%r]' % s
             where = lib.loc(fi, p.stmt)
             if p.kind != 'ret':
@@ -120,8 +128,8 @@ def d3_matrices(ctx, idx):
             raise AnalysisError('apply_symmetry not analysed')
         dim = Rat.sym('dimension')
         for s in SYMMETRIES:
-            p = _select(paths, {'symmetry': s, 'traceless': True})
-            p0 = _select(paths, {'symmetry': s, 'traceless': False})
+            p = _select(paths, {'symmetry': s, 'traceless': True}, idx, fi)
+            p0 = _select(paths, {'symmetry': s, 'traceless': False}, idx, fi)
             construct = 'SquareMatrices.apply_symmetry [symmetry=%r, traceless]' % s
             where = lib.loc(fi, p.stmt)
             try:
@@ -291,7 +299,7 @@ def d3_matrices(ctx, idx):
                 None: sup(base)}
         words = {1: 'make_det_one(array) without norm rescaling', 0: 'super().normalize(make_det_zero(array))', None: 'super().normalize(array)'}
         for det in (1, 0, None):
-            p = _select(paths, {'determinant': det})
+            p = _select(paths, {'determinant': det}, idx, fi)
             construct = 'SquareMatrices.normalize [determinant=%r]' % det
             where = lib.loc(fi, p.stmt)
             if p.kind != 'ret':
@@ -310,7 +318,7 @@ def d3_matrices(ctx, idx):
         base = _array_param(fi)
         spec = {'upper': ('call', 'numpy.triu', (base,), ()), 'lower': ('call', 'numpy.tril', (base,), ()), None: base}
         for tri in ('upper', 'lower', None):
-            p = _select(paths, {'triangular': tri})
+            p = _select(paths, {'triangular': tri}, idx, fi)
             construct = 'GeneralMatrices.apply_symmetry [triangular=%r]' % tri
             where = lib.loc(fi, p.stmt)
             if p.kind == 'ret':
